@@ -343,11 +343,13 @@ M("c17-src-fallback-binary-tree", ["C17"],
 
 # ---- C18 ------------------------------------------------------------------
 M("c18-open-before-serialize", ["C18"],
-  (CM, '        parser = self._get_parser()\n        self.serialize(parser)\n        with open_file_obj(f, "w") as f:\n            self.build_file(parser, f)', '        with open_file_obj(f, "w") as f:\n            parser = self._get_parser()\n            self.serialize(parser)\n            self.build_file(parser, f)'))
+  (CM, '        parser = self._get_parser()\n        self.serialize(parser)\n        # ... and render the whole text first: values no validator looks at\n        # may still be refused by the encoder\n        text = six.StringIO()\n        self.build_file(parser, text)\n        with open_file_obj(f, "w") as f:\n            f.write(text.getvalue())', '        with open_file_obj(f, "w") as f:\n            parser = self._get_parser()\n            self.serialize(parser)\n            self.build_file(parser, f)'))
 M("c18-treeinfo-open-before-serialize", ["C18"],
-  (TI, '        parser = self._get_parser()\n        self.serialize(parser, main_variant=main_variant)\n        with productmd.common.open_file_obj(f, "w") as f:\n            self.build_file(parser, f)', '        with productmd.common.open_file_obj(f, "w") as f:\n            parser = self._get_parser()\n            self.serialize(parser, main_variant=main_variant)\n            self.build_file(parser, f)'))
+  (TI, '        parser = self._get_parser()\n        self.serialize(parser, main_variant=main_variant)\n        text = six.StringIO()\n        self.build_file(parser, text)\n        with productmd.common.open_file_obj(f, "w") as f:\n            f.write(text.getvalue())', '        with productmd.common.open_file_obj(f, "w") as f:\n            parser = self._get_parser()\n            self.serialize(parser, main_variant=main_variant)\n            self.build_file(parser, f)'))
 M("c18-delete-on-failure", ["C18"],
-  (CM, '        parser = self._get_parser()\n        self.serialize(parser)\n        with open_file_obj(f, "w") as f:\n            self.build_file(parser, f)', '        parser = self._get_parser()\n        try:\n            self.serialize(parser)\n        except Exception:\n            if isinstance(f, six.string_types) and os.path.exists(f):\n                os.unlink(f)\n            raise\n        with open_file_obj(f, "w") as f:\n            self.build_file(parser, f)'))
+  (CM, '        parser = self._get_parser()\n        self.serialize(parser)\n        # ... and render the whole text first: values no validator looks at\n        # may still be refused by the encoder\n        text = six.StringIO()\n        self.build_file(parser, text)\n        with open_file_obj(f, "w") as f:\n            f.write(text.getvalue())', '        parser = self._get_parser()\n        try:\n            self.serialize(parser)\n        except Exception:\n            if isinstance(f, six.string_types) and os.path.exists(f):\n                os.unlink(f)\n            raise\n        text = six.StringIO()\n        self.build_file(parser, text)\n        with open_file_obj(f, "w") as f:\n            f.write(text.getvalue())'))
+M("c18-render-into-the-open-file-again", ["C18"],
+  (CM, '        text = six.StringIO()\n        self.build_file(parser, text)\n        with open_file_obj(f, "w") as f:\n            f.write(text.getvalue())', '        with open_file_obj(f, "w") as f:\n            self.build_file(parser, f)'))
 M("c18-touch-destination-first", ["C18"],
   (CM, '        self.validate()\n        # serialize (and thereby validate all nested objects) before the', '        self.validate()\n        if isinstance(f, six.string_types) and not os.path.exists(f):\n            open(f, "a").close()\n        # serialize (and thereby validate all nested objects) before the'))
 
